@@ -66,6 +66,13 @@ def from_v(v):
     return float(v)
 
 
+def agree_unmasked(got, want):
+    """[data, mask] pairs: masks must agree everywhere, data where unmasked (values under a mask are not part of a masked array's meaning)"""
+    gd, gm = np.array(got[0], dtype=float), np.array(got[1], dtype=bool)
+    wd, wm = np.array(want[0], dtype=float), np.array(want[1], dtype=bool)
+    return gd.shape == wd.shape and np.array_equal(gm, wm) and np.allclose(gd[~wm], wd[~wm], rtol=1e-9, atol=1e-12)
+
+
 def agree(a, b, tol=1e-9):
     if isinstance(a, (list, tuple, np.ndarray)) or isinstance(b, (list, tuple, np.ndarray)):
         a, b = list(a), list(b)
@@ -75,12 +82,12 @@ def agree(a, b, tol=1e-9):
     return abs(float(a) - float(b)) <= tol * max(1.0, abs(float(b)))
 
 
-def case(name, native, symbolic):
+def case(name, native, symbolic, masked_pair=False):
     count[0] += 1
     try:
         want = native()
         got = symbolic()
-        ok = agree(from_v(got) if not isinstance(got, (list, float, int, bool)) else got, want.tolist() if isinstance(want, np.ndarray) else want)
+        ok = agree_unmasked(got, want) if masked_pair else agree(from_v(got) if not isinstance(got, (list, float, int, bool)) else got, want.tolist() if isinstance(want, np.ndarray) else want)
         if not ok:
             fails.append((name, 'E2 %r vs CPython %r' % (str(from_v(got))[:300], str(want)[:300])))
     except Exception as e:
@@ -234,6 +241,86 @@ for rep in range(3):
     from dadi.LowPass import LowPass
     part = [rng.randint(0, 2) for _ in range(4)]
     case('projection_inbreeding', lambda: LowPass.projection_inbreeding(part, 4), lambda: run1(Executor(), 'dadi/LowPass/LowPass.py', 'projection_inbreeding', [VList(list(part)), 4]))
+
+# --- bookkeeping functions that go through the Spectrum constructor (corner masks!), against the real class
+def ctor_hook(ex):
+    from contracts.py_wiring import _nd_build, _nd_get
+
+    def ah(ex_, fref, a, kw, ctx):
+        if (isinstance(fref, ClassRef) and fref.node.name == 'Spectrum') or (isinstance(fref, Tm) and 'Spectrum' in fref.op):
+            arr_ = a[0]
+            shp = ex_.list_method(arr_, 'shape')
+            mc = kw.get('mask_corners', True)
+            given = kw.get('mask')
+            corner = lambda idx: bool(mc) and (all(i == 0 for i in idx) or all(i == s_ - 1 for i, s_ in zip(idx, shp)))
+            ex_.setattr(arr_, 'mask', _nd_build(shp, lambda idx: True if corner(idx) else (_nd_get(given, idx) if given is not None else False)))
+            ex_.setattr(arr_, 'pop_ids', kw.get('pop_ids'))
+            return arr_
+        return NotImplemented
+    ex.abstract_hook = ah
+    return ex
+
+
+for rep in range(3):
+    ns = rng.choice([(2, 3), (1, 2, 2), (2, 1, 1)])
+    shape = tuple(n + 1 for n in ns)
+    fv = arr(shape)
+    mv = (np.array([rng.random() < 0.25 for _ in range(int(np.prod(shape)))]).reshape(shape)).tolist()
+    tc = rng.sample(range(1, len(ns) + 1), 2)
+
+    def nat_comb():
+        fs = dadi.Spectrum(to_np(fv), mask=np.array(mv), mask_corners=False, pop_ids=['P%d' % i for i in range(len(ns))])
+        o = fs.combine_two_pops(list(tc))
+        return [np.asarray(o.data).tolist(), np.ma.getmaskarray(o).tolist()]
+
+    def sym_comb():
+        data, mask = to_v(fv), to_v(mv)
+
+        def gh(ex_, obj, name, ctx):
+            if obj is data:
+                if name == 'sample_sizes':
+                    return VList(list(ns), 'ndarray')
+                if name == 'pop_ids':
+                    return VList(['P%d' % i for i in range(len(ns))])
+                if name == 'mask':
+                    return mask
+                if name in ('extrap_x', 'folded'):
+                    return None if name == 'extrap_x' else False
+            return NotImplemented
+        ex_ = ctor_hook(Executor(getattr_hook=gh))
+        r = run1(ex_, 'dadi/Spectrum_mod.py', 'Spectrum.combine_two_pops', [data, VList(list(tc))])
+        return [from_v(r), from_v(r.__dict__['attrs']['mask'])]
+    case('combine_two_pops%s%s' % (ns, tc), nat_comb, sym_comb, masked_pair=True)
+
+    axis = rng.randrange(len(ns))
+    nproj = rng.randint(1, ns[axis])
+
+    def nat_proj():
+        fs = dadi.Spectrum(to_np(fv), mask=np.array(mv), mask_corners=False)
+        o = fs._project_one_axis(nproj, axis) if nproj <= ns[axis] else None
+        return [np.asarray(o.data).tolist(), np.ma.getmaskarray(o).tolist()]
+
+    def sym_proj():
+        data, mask = to_v(fv), to_v(mv)
+
+        def gh(ex_, obj, name, ctx):
+            if obj is data:
+                if name == 'sample_sizes':
+                    return VList(list(ns), 'ndarray')
+                if name == 'Npop':
+                    return len(ns)
+                if name == 'mask':
+                    return mask
+            return NotImplemented
+
+        def pol(fr_):
+            if fr_.qualname == '_cached_projection':
+                return lambda ex_, f_, a, kw: VList([F(float(x)).limit_denominator(10 ** 12) for x in Numerics._cached_projection(*[int(exact(z)) for z in a])], 'ndarray')
+            return 'inline' if fr_.qualname == 'Spectrum._project_one_axis' else 'abstract'
+        ex_ = ctor_hook(Executor(policy=pol, getattr_hook=gh))
+        r = run1(ex_, 'dadi/Spectrum_mod.py', 'Spectrum._project_one_axis', [data, nproj], dict(axis=axis))
+        return [from_v(r), from_v(r.__dict__['attrs']['mask'])]
+    case('_project_one_axis%s.%d.%d' % (ns, axis, nproj), nat_proj, sym_proj, masked_pair=True)
 
 print('E2-vs-CPython cross-check: %d cases, %d mismatches (seed %d)' % (count[0], len(fails), seed))
 for n_, why in fails:
